@@ -66,5 +66,10 @@ def write_evidence(prop, tier, seed, proof, bounded, known_lines, violations, fa
           "assumptions": assumptions, "wall_s": round(wall, 2), "violations": len(violations)}
     if faults:
         ev["coverage"]["checker_faults"] = [str(f)[:500] for f in faults[:5]]
-    with open(os.path.join(HERE, "evidence", f"{prop}.json"), "w") as fh:
+    out_dir = os.path.join(HERE, "evidence")
+    if os.environ.get("VALIDA_SRC", "/repo") != "/repo":
+        # a run against a scratch copy of the library (mutation / seed experiments) must not replace the evidence of /repo
+        out_dir = os.path.join(os.environ["VALIDA_SRC"], "_evidence")
+        os.makedirs(out_dir, exist_ok=True)
+    with open(os.path.join(out_dir, f"{prop}.json"), "w") as fh:
         json.dump(ev, fh, indent=1, sort_keys=True, default=repr)
